@@ -154,6 +154,13 @@ fn len_class(n: usize) -> u8 {
     }
 }
 
+/// `Report::violation` with the detail built only when it will be kept (the counter always moves)
+fn violate(r: &mut Report, sig: &str, detail: impl FnOnce() -> Value) {
+    let kept = r.violations.iter().filter(|v| v.signature == sig).count();
+    let d = if kept < 3 && r.violations.len() < 200 { detail() } else { Value::Null };
+    r.violation(sig, d);
+}
+
 // ---------------------------------------------------------------------------------------------
 // generators
 
@@ -403,9 +410,7 @@ fn present(
             } else {
                 r.count(&format!("value.{}.accepted_NOT_written", kind));
                 outcome = "accepted-not-written";
-                r.violation(
-                    sig,
-                    json!({
+                violate(r, sig, || json!({
                         "entry": "lightning_storage_server::util::process_value_from_get (crate built without `crypt`)",
                         "why": if stored.is_none() { "accepted a (key, version, content) triple that was never written under this secret" }
                                else { "accepted stored bytes that differ from the bytes the signer wrote for this (key, version): a tampered value passed the check (the decoded content happens to equal the written one)" },
@@ -420,8 +425,7 @@ fn present(
                         "accepted_content": rec_json(&got),
                         "written_under_this_secret": c.written.keys().map(rec_json).collect::<Vec<_>>(),
                         "place": c.place,
-                    }),
-                );
+                    }));
             }
             Some(true)
         }
@@ -713,9 +717,7 @@ impl ValueTable {
                 r.count(&format!("valuetable.collision.{}", shape));
                 r.count(&format!("valuetable.collision.{}.{}", shape, origin));
                 r.distinct_str(&format!("B:{}:collision:{}:{}", origin, shape, (a.key.len() as i64 - b.key.len() as i64).clamp(-9, 9)));
-                r.violation(
-                    &format!("value-hmac:{}", if sa == sb { shape } else { "tag-collision-distinct-stream" }),
-                    json!({
+                violate(r, &format!("value-hmac:{}", if sa == sb { shape } else { "tag-collision-distinct-stream" }), || json!({
                         "entry": "lightning_storage_server::util::prepare_value_for_put (crate built without `crypt`)",
                         "why": "two different (key, version, content) triples written under the same secret carry the same 32-byte MAC, so the stored blob of one is accepted as the other",
                         "observed_by": "tag table over all triples written in this context",
@@ -727,8 +729,7 @@ impl ValueTable {
                         "byte_string_hex": hex::encode(&sa),
                         "generator": origin,
                         "place": self.place,
-                    }),
-                );
+                    }));
             }
         }
     }
@@ -889,13 +890,10 @@ impl SharedCtx {
         if cross {
             let (d_a, d_b) = (domains[0], domains[1]);
             r.count(&format!("{}.collision.cross-nonce", prefix));
-            r.violation(
-                &format!("{}:cross-nonce-collision", prefix),
-                json!({"why": "tags computed under different nonces are equal, so a tag made for one request authenticates under another",
+            violate(r, &format!("{}:cross-nonce-collision", prefix), || json!({"why": "tags computed under different nonces are equal, so a tag made for one request authenticates under another",
                        "secret_hex": hex::encode(self.secret), "nonce_hex": hex::encode(self.nonce), "tag_hex": hex::encode(tag),
                        "first": {"domain": DOMAIN_NAMES[d_a], "list": list_json(a)}, "second": {"domain": DOMAIN_NAMES[d_b], "list": list_json(b)},
-                       "place": self.place}),
-            );
+                       "place": self.place}));
             return true;
         }
         if a == b {
@@ -921,9 +919,7 @@ impl SharedCtx {
         } else {
             None
         };
-        r.violation(
-            &format!("{}:{}", prefix, shape),
-            json!({
+        violate(r, &format!("{}:{}", prefix, shape), || json!({
                 "entry": if prefix == "shared-hmac" { "lightning_signer::persist::{ExternalPersistHelper, compute_shared_hmac}" } else { "lightning_storage_server::util::compute_shared_hmac" },
                 "why": "two lists with different sets of (key, version, value) records authenticate under the same tag with the same secret and nonce",
                 "observed_by": "tag table over all lists of this (secret, nonce) context",
@@ -936,8 +932,7 @@ impl SharedCtx {
                 "byte_stream_hex_of_first": hex::encode(stream(a)),
                 "check_hmac(second_list, tag_of_first_list)": confirm,
                 "place": self.place,
-            }),
-        );
+            }));
         true
     }
 }
@@ -1199,9 +1194,7 @@ fn show(r: &mut Report, s: &Session, kind: &str, sig: &str, list: &[Rec], tag: &
                 } else {
                     sig.to_string()
                 };
-                r.violation(
-                    &sig,
-                    json!({
+                violate(r, &sig, || json!({
                         "entry": "lightning_signer::persist::ExternalPersistHelper::check_hmac",
                         "why": "accepted a (list, tag) that no holder of the secret produced for the current nonce and this record set",
                         "presentation": kind,
@@ -1213,8 +1206,7 @@ fn show(r: &mut Report, s: &Session, kind: &str, sig: &str, list: &[Rec], tag: &
                         "productions_with_this_tag": s.produced.iter().filter(|p| p.tag[..] == tag[..]).map(|p| json!({"nonce_hex": hex::encode(&p.nonce), "what": p.what, "list": list_json(&p.list)})).collect::<Vec<_>>(),
                         "step": s.step,
                         "place": s.place,
-                    }),
-                );
+                    }));
             }
             Some(true)
         }
@@ -1383,8 +1375,8 @@ fn main() {
     let start = Instant::now();
     let quick = cli.tier.is_quick();
     let shards = if quick { 16 } else { 64 };
-    let value_ctx = cli.scaled(if quick { 40 } else { 300 });
-    let table_ctx = cli.scaled(if quick { 4 } else { 20 });
+    let value_ctx = cli.scaled(if quick { 60 } else { 300 });
+    let table_ctx = cli.scaled(if quick { 6 } else { 20 });
     let shared_ctx = cli.scaled(if quick { 10 } else { 40 });
     let sessions = cli.scaled(if quick { 12 } else { 60 });
 
@@ -1401,7 +1393,7 @@ fn main() {
             value_table_context(r, &mut rng, json!({"monitor": "B", "seed": cli.seed, "shard": i, "context": c}), 600, 120, 200);
         }
         for c in 0..shared_ctx {
-            shared_context(r, &mut rng, json!({"monitor": "C", "seed": cli.seed, "shard": i, "context": c}), 40, if quick { 500 } else { 800 });
+            shared_context(r, &mut rng, json!({"monitor": "C", "seed": cli.seed, "shard": i, "context": c}), 40, 800);
         }
         for c in 0..sessions {
             nonce_session(r, &mut rng, json!({"monitor": "D", "seed": cli.seed, "shard": i, "session": c}), 12);
